@@ -14,9 +14,15 @@ PROPS = {
         'level': 'proof',
         'design_ref': 'DESIGN.md §6 C01',
     },
+    'C02': {
+        'verus': [],
+        'kani': ['operators'],
+        'level': 'proof',
+        'design_ref': 'DESIGN.md §5 K2, §6 C02',
+    },
     'C03': {
         'verus': ['program_lines', 'program_state'],
-        'kani': ['arrays'],
+        'kani': ['arrays', 'operators'],
         'level': 'proof',
         'design_ref': 'DESIGN.md §6 C03',
     },
@@ -46,7 +52,7 @@ PROPS = {
     },
     'C16': {
         'verus': ['program_state'],
-        'kani': ['arrays'],
+        'kani': ['arrays', 'operators'],
         'level': 'proof',
         'design_ref': 'DESIGN.md §6 C16',
     },
@@ -65,6 +71,7 @@ UNDECIDED = {
         "edit path in Interpreter::evaluate_impl (generic AsRef<str>, Tokenizer) is assumed: a line is stored only after remaining_tokens() returned Ok",
         "line-number prefix parsing overflow clause rests on std's str::parse::<u64>",
     ],
+    'C02': ["precedence / associativity / parentheses (shape of the eight mutually recursive evaluator tiers over &mut Interpreter): undecided - CBMC cannot execute a 5-token expression through Interpreter, Verus cannot type the evaluators", "ABS / INT (closures in evaluate_function_call), ^ values (powf), PRINT number formatting (f64 Display): undecided", "* and / values beyond the stated small-integer domain: the SAT back end does not decide two 64-bit float multiplier circuits in budget"],
     'C01': ["tokenizer / DATA parser / statement and expression evaluators: panic-freedom undecided", "native stack exhaustion by nested parentheses: no stack model in either tool", "get_line_with_pointer_caret (fmt): undecided"],
     'C03': ["statement dispatch, IF/ELSE token skipping, FOR/NEXT arithmetic in doubles (end_loop), DIM/array statements: undecided", "the IF..THEN GOSUB..ELSE defect named in the property lives in statement.rs and cannot be seen by this check"],
     'C07': ["that STOP and the host break both reach Program::break_at_current_location (statement.rs:28, interpreter.rs:115) is read, not proved"],
